@@ -314,11 +314,11 @@ theorem live_routes_guarded (c : Cfg) : ∀ r ∈ routes.filter (routeLive c),
 
 /-! ## the entry points that are not routes -/
 
-/-- Handler.HandleQuery (arrow flight DoGet) and the flight service's DoPut authorize the
-database they act on: same alignment as for the routes. -/
+/-- Handler.HandleQuery (arrow flight DoGet), the flight service's DoPut and the record-write gRPC
+service's Write authorize the database they act on: same alignment as for the routes. -/
 theorem extraFlows_aligned : ∀ f ∈ extraFlows, flowAligned f = true := by decide
 
 example : (extraFlows.filter (fun f => (authzEnd f).isSome && (execEnd f).isSome)).map (·.handler)
-    = ["HandleQuery", "arrowflight.flightServer.DoPut"] := by decide
+    = ["HandleQuery", "arrowflight.flightServer.DoPut", "writer.Service.Write"] := by decide
 
 end OG.C19
